@@ -49,6 +49,8 @@ def configs(tier):
             cfgs.append(dict(group='step', k=k, targets=tg))
         for j in range(0, k):
             cfgs.append(dict(group='fill', k=k, j=j))
+    for dt in ('int8', 'uint8', 'int16', 'int32', 'int64'):
+        cfgs.append(dict(group='ctor', k=2, dtype=dt))       # a capacity that is a NumPy integer scalar
     return cfgs
 
 
@@ -78,6 +80,8 @@ def _ctor(env, cfg, ctx):
     if env.mode == 'conc':
         return _concrete_replay(env, cfg)
     k = cfg['k']
+    if cfg.get('dtype'):
+        k = getattr(_real_np, cfg['dtype'])(k)
     st = guarded(env, 'ctor', UniformReservoirStorage, size=k)
     draws = [c[2] for c in ctx.py_random.calls if c[0] == 'random']
     env.claim('constructor_draws_two_uniforms', len(draws) == 2 and len(ctx.py_random.calls) == 2)
@@ -241,7 +245,7 @@ def _grid_divergence(k):
     return out
 
 
-def _monte_carlo(k, n, runs, seed):
+def _monte_carlo(k, n, runs, seed, dtype=None):
     mod = sys.modules['ixai.storage.uniform_reservoir_storage']
     saved = (mod.random, mod.np, mod.__dict__.get('float'))
     counts = [0] * n
@@ -251,7 +255,7 @@ def _monte_carlo(k, n, runs, seed):
         rng = _real_random.Random(seed)
         mod.random = rng
         for _ in range(runs):
-            st = UniformReservoirStorage(size=k, store_targets=False)
+            st = UniformReservoirStorage(size=k if dtype is None else getattr(_real_np, dtype)(k), store_targets=False)
             for t in range(n):
                 st.update({'f0': t}, None)
             for r in st.get_data()[0]:
@@ -270,9 +274,19 @@ def _concrete_replay(env, cfg):
     env.notes['grid_divergence'] = div[:3]
     seed = int(os.environ.get('VERIF_SEED', '0') or 0)
     worst = None
-    for (kk, nn) in ((1, 3), (2, 4), (3, 7)):
-        runs = 60000
-        freq = _monte_carlo(kk, nn, runs, seed + 17)
+    dt = cfg.get('dtype')
+    # a narrow NumPy capacity: streams longer than the range of its dtype
+    shapes = ((1, 3), (2, 4), (3, 7)) if not dt else ((2, {'int8': 150, 'uint8': 280}.get(dt, 40)),)
+    for (kk, nn) in shapes:
+        runs = 60000 if not dt else 20000
+        with __import__('warnings').catch_warnings():
+            __import__('warnings').simplefilter('ignore')
+            try:
+                freq = _monte_carlo(kk, nn, runs, seed + 17, dt)
+            except (ArithmeticError, ValueError, TypeError) as exc:
+                env.claim('uniform_inclusion_probabilities', False,
+                          detail=f"real class, capacity {dt or 'int'}({kk}), stream of {nn}: update raised {type(exc).__name__}: {exc}")
+                return
         p = kk / nn
         sigma = math.sqrt(p * (1 - p) / runs)
         dev = max(abs(f - p) for f in freq)
@@ -281,4 +295,5 @@ def _concrete_replay(env, cfg):
     env.notes['monte_carlo'] = worst
     env.claim('uniform_inclusion_probabilities', worst[0] <= 6.0,
               detail=f"{'not an Algorithm-L step at e.g. ' + str(div[0]) if div else 'state updates follow Algorithm L'}; real class k={worst[1]}, n={worst[2]}: inclusion "
-                     f"frequencies {worst[3]} vs {worst[1]}/{worst[2]} ({worst[0]:.0f} sigma, 60000 runs)")
+                     f"frequencies {worst[3][:8]}{'...' + str(worst[3][-4:]) if len(worst[3]) > 8 else ''} vs {worst[1]}/{worst[2]} "
+                     f"({worst[0]:.0f} sigma{', capacity of dtype ' + dt if dt else ''})")
